@@ -107,13 +107,13 @@ def read_gate(perm: int, enc: bool, auth: bool, s0: int, s1: int, op: str, targe
     auth = True if auth else False
     long_value = op.startswith('blob')
     tail = bytes(range(1, 30)) if long_value else _B(7)
-    r0, _ = _serve(perm, _B(s0) + tail, enc, auth, _READ_OPS[op], target, bool(eatt))
-    r1, _ = _serve(perm, _B(s1) + tail, enc, auth, _READ_OPS[op], target, bool(eatt))
+    r0, _ = _serve(perm, _B(7, s0) + tail, enc, auth, _READ_OPS[op], target, bool(eatt))
+    r1, _ = _serve(perm, _B(7, s1) + tail, enc, auth, _READ_OPS[op], target, bool(eatt))
     if len(r0) != 1 or len(r1) != 1:
         return False
     if allowed_read(perm, enc, auth):
         if op in ('read', 'blob0'):
-            return r0[0][0] in (0x0B, 0x0D) and r0[0][1] == s0 and r1[0][1] == s1
+            return r0[0][0] in (0x0B, 0x0D) and r0[0][2] == s0 and r1[0][2] == s1
         return r0[0][0] != 0x01 or r0[0][4] not in _ERR
     # refused: nothing may depend on the secret; operations addressing the attribute directly get the error
     if r0[0] != r1[0]:
@@ -201,7 +201,7 @@ def read_gate_after_entitled_access(perm: int, enc: bool, auth: bool, s0: int, s
             feed(server, other, bytes(_READ_OPS[op](ch, pub)), loop)
         return [p for h, p in dev.sent[n:]]
     tail = bytes(range(1, 30))
-    r0, r1 = run(_B(s0) + tail), run(_B(s1) + tail)
+    r0, r1 = run(_B(7, s0) + tail), run(_B(7, s1) + tail)
     if len(r0) != 1 or len(r1) != 1:
         return False
     if allowed_read(perm, enc, auth) or perm % 2 == 0:
